@@ -85,8 +85,8 @@ def run(ctx: Ctx):
 
     wd = workdir(PID)
     maxlen = 5 if ctx.quick else 6
-    r = tlc.run("SmlRefCheck", cfg_text="", workdir=wd, workers=1, what="ref", coverage=False, timeout=1800,
-                env={"SML_MAXLEN": str(maxlen)})
+    r = tlc.run("SmlRefCheck", cfg_text="", workdir=wd, workers=1, what="ref", coverage=False, timeout=3000,
+                env={"SML_MAXLEN": str(maxlen)}, extra_args=["-maxSetSize", "4000000"], heap="12g")
     tlc.require_ok(r, "SmlRefCheck")
     ctx.tlc_runs.append({"spec": "SmlRefCheck.tla", "what": f"reference self-consistency on all token strings <= {maxlen}", "wall_s": round(r.wall, 1)})
     vec, ln, nlb, nar = c01.universe(ctx, wd)
